@@ -153,6 +153,31 @@ SCALARS = [
     ("gen_lt_w1", ["C11"], lambda: self_attr_assign("openaerostruct/transfer/load_transfer.py", "LoadTransfer", "setup", "w1")),
 ]
 
+def consts_in_local_assign(relpath, cls, method, name, expect):
+    """the numeric literals appearing in the (single) assignment `name = ...` of a method, in order"""
+    node, src = local_assign(relpath, cls, method, name)
+    cs = [n for n in ast.walk(node) if isinstance(n, ast.Constant) and isinstance(n.value, (int, float)) and not isinstance(n.value, bool)]
+    cs.sort(key=lambda n: (n.lineno, n.col_offset))
+    if len(cs) != expect:
+        raise Refuse("%s: %s.%s `%s = ...` has %d numeric literals, expected %d" % (relpath, cls, method, name, len(cs), expect))
+    return cs, src
+
+
+def pick(fn, k):
+    def f():
+        cs, src = fn()
+        return cs[k], src
+    return f
+
+
+SCALARS += [
+    ("gen_grav_constant", ["C16", "C17"], lambda: module_assign("openaerostruct/utils/constants.py", "grav_constant")),
+    ("gen_pm_eps", ["C16"], pick(lambda: consts_in_local_assign("openaerostruct/structures/compute_point_mass_loads.py", "ComputePointMassLoads", "compute", "inv_dist10", 2), 1)),
+    ("gen_pm_power", ["C16"], pick(lambda: consts_in_local_assign("openaerostruct/structures/compute_point_mass_loads.py", "ComputePointMassLoads", "compute", "dist10", 1), 0)),
+    ("gen_th_eps", ["C16"], pick(lambda: consts_in_local_assign("openaerostruct/structures/compute_thrust_loads.py", "ComputeThrustLoads", "compute", "inv_dist10", 2), 1)),
+    ("gen_th_power", ["C16"], pick(lambda: consts_in_local_assign("openaerostruct/structures/compute_thrust_loads.py", "ComputeThrustLoads", "compute", "dist10", 1), 0)),
+]
+
 TABLES = []      # filled by later sections (name, props, function returning coq text)
 EXTRA = []       # (filename, props, function returning full file text)
 
